@@ -475,8 +475,8 @@ func (x *Explorer) store3(t Tag, cache, pend, unk Eff) Eff {
 func (x *Explorer) stepStore(st *State, v *ssa.Store) {
 	a := x.P.A
 	if k, ok := x.cellOf(st, v.Addr); ok {
-		al := k.v.(*ssa.Alloc)
-		if len(st.frames) == 1 && al.Comment != "" {
+		al := k.v
+		if aa, isAlloc := k.v.(*ssa.Alloc); isAlloc && len(st.frames) == 1 && aa.Comment != "" {
 			x.L.Event(x, st, &Event{Kind: EvStoreResult, Instr: v, VFact: st.factOf(v.Val)})
 		}
 		switch v.Val.(type) {
@@ -724,6 +724,12 @@ func (x *Explorer) cellOf(st *State, addr ssa.Value) (vkey, bool) {
 				if _, ok := st.cells[k]; ok {
 					return k, true
 				}
+			}
+		}
+		// a goroutine closure explored as a root: captured variables seeded from the spawn site
+		if k := (vkey{st.depth(), a}); st.depth() == 0 {
+			if _, ok := st.cells[k]; ok {
+				return k, true
 			}
 		}
 	}
